@@ -195,7 +195,7 @@ def run_event(graph, ctx, idx):
 
 def state_of(graph, ctx):
     c = Canon(skip_keys=getattr(graph, "skip_keys", ()))
-    parts = [c.walk(graph.roots(ctx), 0)]
+    parts = [c.walk(graph.roots(ctx), 0), c.walk(graph.inputs(ctx), 0)]
     parts.append(rng_fingerprint().encode())
     return hashlib.sha1(b"|".join(parts)).hexdigest()[:20]
 
